@@ -85,6 +85,12 @@ def generate(tier, seed):
                             if name == "TPLStable" and a == "alpha":
                                 o["hurst"] = min(0.5, 0.45 * v)
                             plist.append((f"{a}={v:g}(round)", o, None))
+                            for fac in (1.0 + 2e-6, 1.0 - 2e-6):
+                                vv = v * fac
+                                if b[0] < vv < b[1] and rng.random() < 0.5:
+                                    o2 = dict(o)
+                                    o2[a] = vv
+                                    plist.append((f"{a}={vv!r}(near-round)", o2, None))
             if "len_low" in bnds:
                 for resc in (None, 0.5, 3.0):
                     plist.append((f"len_low=1.5,rescale={resc}", {"len_low": 1.5}, resc))
